@@ -86,6 +86,15 @@ def run(repo: Repo, rep: Report) -> None:
                    why or "no counter, visited-set guard, link removal or guarded validator: serialisation never ends on a cyclic rdf:rest chain", node=loop)
 
     escape_table_rules(repo, rep, "C03.b-escape-tables-agree")
+    # (d) readers never drop a falsy value
+    from vlib import truthy as _tr
+    rep.rule("C03.d-readers-keep-falsy-values",
+             "in the JSON-LD reader (Parser methods that build objects and lists) a converted value that may be a Literal is tested with `is None`, "
+             "never by truthiness: 0, '' and false are values that were written and must come back", floor=1)
+    jp = repo.mod("rdflib.plugins.parsers.jsonld")
+    for m, f in jp.methods("Parser").items():
+        _tr.scan(repo, rep, "C03.d-readers-keep-falsy-values", jp, f, "Parser." + m)
+        rep.analysed("rdflib/plugins/parsers/jsonld.py:Parser." + m)
     from checks.c05 import xmlns_agreement
 
     xmlns_agreement(repo, rep, "C03.c-rdfxml-prefixes-declared-as-used")
